@@ -1,6 +1,7 @@
 import Proofs.Col
 import Proofs.Msg
 import Proofs.Frame
+import Proofs.Block
 import Props.C01
 import Props.C17
 import Props.C05
@@ -41,6 +42,18 @@ theorem C07_state_and_column (cfg : Col.Cfg) (hcap : cfg.cap = none) (c : Col.Co
     have := Col.col_rt cfg hcap c [] h
     rwa [List.append_nil] at this
   exact truncation_not_ok hstable hrt hsplit hne
+
+/-- **whole blocks**: header (BlockInfo, columns, rows), column headers, state prefixes and bodies —
+no proper prefix of a block is accepted by a peer that knows the schema, at any revision -/
+theorem C07_block (cfg : Col.Cfg) (hcap : cfg.cap = none) (v : Nat) (bk : Int) (cols : List Block.BCol)
+    (rows : Nat) (hb : -(2 ^ 31) ≤ bk ∧ bk < 2 ^ 31) (hn : cols.length ≤ 1000000)
+    (hr : rows ≤ cfg.maxRows) (hr2 : rows < 2 ^ 63) (hne0 : cols ≠ [] ∨ rows ≠ 0)
+    (h : ∀ c ∈ cols, Block.BCol.OK cfg rows c)
+    (p s : Bytes) (hsplit : Block.enc v bk cols rows = p ++ s) (hne : s ≠ []) :
+    ∀ y r, Block.dec cfg v (Block.schemaOf cols) p ≠ .ok (y, r) := by
+  have hrt := Block.block_rt cfg hcap v bk cols rows [] hb hn hr hr2 hne0 h
+  rw [List.append_nil] at hrt
+  exact truncation_not_ok (Block.dec_stable cfg v _) hrt hsplit hne
 
 /-- **protocol messages at every revision**: no proper prefix of a message decodes -/
 theorem C07_message (lim cap : Option Nat) (d : List Msg.Field) (v : Nat) (m : List Msg.FVal)
